@@ -815,16 +815,11 @@ pub fn decode(bytes: &[u8]) -> Result<Decoded, String> {
                 ));
             }
             for r in &recs {
-                if r.chrom != leaf.sc || leaf.sc != leaf.ec {
+                // a zoom block may legally run across chromosomes: compare (chromosome, base) pairs
+                if (r.chrom, r.start) < (leaf.sc, leaf.sb) || (r.chrom, r.end) > (leaf.ec, leaf.eb) {
                     problems.push(format!(
-                        "zoom {} block {}: record chrom {} vs leaf chroms {}..{}",
-                        reduction, li, r.chrom, leaf.sc, leaf.ec
-                    ));
-                }
-                if r.start < leaf.sb || r.end > leaf.eb {
-                    problems.push(format!(
-                        "zoom {} block {}: record [{},{}) outside leaf span [{},{})",
-                        reduction, li, r.start, r.end, leaf.sb, leaf.eb
+                        "zoom {} block {}: record ({},[{},{})) outside leaf span ({},{})-({},{})",
+                        reduction, li, r.chrom, r.start, r.end, leaf.sc, leaf.sb, leaf.ec, leaf.eb
                     ));
                 }
             }
